@@ -513,24 +513,23 @@ def distance_buffers_are_floating(ctx, clause: str):
     rd = ReachingDefs(f.node)
     float_formals = {p.name for p in f.params if p.annotation is not None and u(p.annotation) == "float"}
     int_formals = {p.name for p in f.params if p.annotation is not None and u(p.annotation) in ("int", "Optional[int]", "bool")}
-    state = {"row", "mistakes"}
-
     def is_float_dtype(e):
         t = u(e)
-        return t in ("torch.float", "torch.float32", "torch.double", "torch.float64", "torch.get_default_dtype()") or t.endswith(".dtype") and t.split(".")[0] in state
+        return t in ("torch.float", "torch.float32", "torch.double", "torch.float64", "torch.get_default_dtype()")
+
+    def float_valued(v):
+        # a cost (a float formal) or a floating-point literal takes part in the stored value
+        return any((isinstance(x, ast.Name) and x.id in float_formals) or (isinstance(x, ast.Constant) and isinstance(x.value, float)) for x in ast.walk(v))
 
     stores = {}
     for n in own_nodes(f.node):
         if isinstance(n, ast.Assign) and len(n.targets) == 1 and isinstance(n.targets[0], ast.Subscript) and isinstance(n.targets[0].value, ast.Name):
-            v = n.value
-            if isinstance(v, (ast.Compare, ast.BoolOp)):
-                continue
-            if not (rd.derives(v).names() & state) and not any(isinstance(x, ast.Name) and x.id in state for x in ast.walk(v)):
-                continue
             stores.setdefault(n.targets[0].value.id, []).append(n)
+    # a distance buffer: a local that receives at least one indexed store of a cost-weighted value
+    stores = {k: [n for n in v if not isinstance(n.value, (ast.Compare, ast.BoolOp))] for k, v in stores.items() if any(float_valued(n.value) for n in v)}
     n_buf = 0
     for name, sts in stores.items():
-        if name in state:
+        if not sts:
             continue
         for d in rd.defs_of(sts[0].targets[0].value):
             c = d.value
